@@ -281,7 +281,7 @@ def split_trace(path, key="case"):
     parts, out, size, last = [], None, 0, None
     with open(path) as f:
         for l in f:
-            m = pat.search(l[:400]) or pat.search(l)
+            m = pat.search(l)
             cur = m.group(1) if m else last
             if out is None or (size >= PART_BYTES and cur != last):
                 if out:
